@@ -11,8 +11,7 @@ package zkaffp
 
 //@ func (*Proof).Verify
 //@   nopanic[C05]
-//@   modifies nothing
-//@   allocates
+//@   modifies hstate(hash)
 //@   requires group != nil && hash != nil && hash.h != nil && public.Kv != nil && public.Dv != nil && public.Fp != nil && public.Xp != nil && pkok(public.Prover) && pkok(public.Verifier) && pedok(public.Aux)
 
 //@ func challenge
